@@ -253,6 +253,15 @@ impl MetadataClient for LocalMetadataClient {
         source_chunks: &[String],
         target_chunk: &str,
     ) -> Result<()> {
+        // The sources may only leave the catalog in favour of a chunk that is in it
+        // (same rule as the object-store backend).
+        if !self.chunks.contains_key(target_chunk) {
+            return Err(crate::Error::Metadata(format!(
+                "Compaction target chunk not found in catalog: {}",
+                target_chunk
+            )));
+        }
+
         // Determine the new level (max source level + 1)
         let new_level = source_chunks
             .iter()
